@@ -127,6 +127,15 @@ CHECKS = {
              'name, every name one edit away and every private / dunder / non-callable view member under every prefix in play '
              'is requested and the reached target token (or -32601) compared with the model; the registry key set too.',
         note='trusted: the name model inside vmon/monitors/c15.py; add_methods(Method) under a prefix is not judged'),
+    'C13': dict(
+        category='exploration', design_ref='DESIGN.md §3 C13',
+        technique='runtime monitor: fresh-vs-used dispatcher differential, weakref/gc leak detector, multi-thread run with sys.monitoring yield injection',
+        text='(1) histories of <= 6/12 corpus requests followed by each of 10 probes, answer and executions compared with a fresh '
+             'dispatcher; (2) N in {1,10,1000} dispatches with fresh contexts on function / positional-context / view methods '
+             'under three validators, then weak references to contexts, view instances and method-local objects must be dead and '
+             'gc object counts flat; (3) 2..16 threads on one dispatcher with GIL yields injected at statement starts of '
+             'dispatcher.py / validators, every response compared with the model answer and searched for foreign tokens.',
+        note='trusted: vmon/models/server.py; held on the interleavings observed (counted in the evidence), not on all'),
 }
 
 NOT_BUILT_REASON = 'no check registered yet in this round (monitor under construction, see DESIGN.md §3)'
